@@ -43,10 +43,24 @@ def run_and_judge(wd, label, cases, workers=12, timeout=3000):
     write_ndjson(cp, cases)
     op = os.path.join(wd, "obs-%s.ndjson" % label)
     dlv(["text", "--cases", cp, "--out", op])
-    res = tlc("trace/TextTrace", workers=workers, timeout=timeout, env={"OBS": op}, xmx="12g")
-    tlc_ok(res, "TextTrace(%s)" % label)
-    verdicts = {v["id"]: v for v in res.tagged("VERDICT")}
-    obs = {o["id"]: o for o in read_ndjson(op)}
+    obs_rows = read_ndjson(op)
+    obs = {o["id"]: o for o in obs_rows}
+    verdicts = {}
+    res = None
+    CH = 6000
+    for k in range(0, len(obs_rows), CH):
+        part = op + ".part%d" % (k // CH)
+        write_ndjson(part, obs_rows[k:k + CH])
+        r = tlc("trace/TextTrace", workers=workers, timeout=timeout, env={"OBS": part}, xmx="12g")
+        tlc_ok(r, "TextTrace(%s, chunk %d)" % (label, k // CH))
+        for v in r.tagged("VERDICT"):
+            verdicts[v["id"]] = v
+        os.remove(part)
+        if res is None:
+            res = r
+        else:
+            res.distinct += r.distinct
+            res.generated += r.generated
     if set(verdicts) != set(obs):
         raise vlib.ToolError("TextTrace judged %d of %d observations (%s)" % (len(verdicts), len(obs), label))
     return obs, verdicts, res
